@@ -1,6 +1,6 @@
 \* the raw writer as it was (offset carried over, unconditional close): TLC must report NoErr violated
 CONSTANTS NDev = 2 NPaths = 3 MaxCycles = 2 MaxAppends = 2 PacketSizes = {1, 2, 3} NScripts = 5
-  MaxFaultAt = 4 FIXED = 0 MaxFd = 5 Ghost = TRUE Export = FALSE
+  MaxFaultAt = 4 FIXED = 0 SetRunning = TRUE FIX_SET = 1 MaxFd = 5 Ghost = TRUE Export = FALSE
 SPECIFICATION Spec
 VIEW View
 INVARIANTS NoErr TypeOK OwnsItsFile RunningFile
